@@ -13,7 +13,7 @@
    requests; Model/EvmWorld.v puts that machine into a world of accounts with message-call frames
    (CALL, CALLCODE, DELEGATECALL, STATICCALL with value transfer, revert of failed callees, static
    mode, return data; BALANCE, EXTCODESIZE, EXTCODECOPY), compared by the "evmworld" engine.
-   (c) What (b) does not model - SHA3, EXTCODEHASH, BLOCKHASH, creates, self-destructs, precompiles,
+   (c) What (b) does not model - the precompiled contracts and
    gas - is compared with the reference only: the "evmdiff" engine runs
    generated programs on the in-tree and the reference go-ethereum v1.8.27 interpreters and compares
    outcome class, return data, post-state root and logs (partial, DESIGN.md C10). *)
@@ -106,7 +106,7 @@ Proof. exact init_inv. Qed.
 
 (* non-vacuity: a counted loop that stores, a jump into PUSH data that fails, and the stack limit
    PUSH1 3; JUMPDEST; DUP1; PUSH1 0; SSTORE; PUSH1 1; SWAP1; SUB; DUP1; PUSH1 2; JUMPI; STOP *)
-Definition cx_env : env := mkEnv 193 170 170 0 0 12648430 1000 300 7 10000000 [1; 2; 3].
+Definition cx_env : env := mkEnv 193 170 170 0 0 12648430 1000 300 7 10000000 [1; 2; 3] (fun _ => 0).
 Definition cx_loop : list Z := [96; 3; 91; 128; 96; 0; 85; 96; 1; 144; 3; 128; 96; 2; 87; 0].
 Definition cx_badjump : list Z := [96; 3; 86; 97; 91; 91; 0].   (* jumps to offset 3: the operand of the PUSH2 *)
 Definition cx_overflow : list Z := [91; 88; 96; 0; 86].         (* JUMPDEST; PC; PUSH1 0; JUMP: one more word per turn *)
@@ -132,7 +132,7 @@ Print Assumptions c10_static_frames_change_nothing.
 Definition wx_c1 : list Z := [96;0;96;0;96;0;96;0;96;5;96;194;96;0;241;96;1;85; 96;0;96;0;96;0;96;0;96;194;96;0;250;96;2;85;0].
 Definition wx_c2 : list Z := [52;96;7;85;0].
 Definition wx_world : world := [(193, mkAcc 1 100 wx_c1 []); (194, mkAcc 1 0 wx_c2 []); (170, mkAcc 5 1000 [] [])].
-Definition wx_benv : benv := mkBenv 170 0 12648430 1000 300 7 10000000.
+Definition wx_benv : benv := mkBenv 170 0 12648430 1000 300 7 10000000 (fun _ => 0).
 Example c10_world_nonvacuous :
   match call_world 1000 wx_benv wx_world 193 0 [] with
   | (ws, FStop []) =>
